@@ -1,5 +1,6 @@
 """C04 - the validator accepts valid models and rejects every rule violation (structural clauses)."""
 import json
+import re
 import os
 import sys
 
@@ -257,9 +258,42 @@ def run(F, rep):
     import core
     import c16
     c16.run(F, core.Borrowed(rep, only={'C16.N1', 'C16.G1', 'C16.U2'}))
+    # the hierarchy predicates the validator relies on for connections (siblings / parent-child) compare owners: clause shared with C09
+    import c09
+    c09.run(F, core.Borrowed(rep, only={'C09.Q1'}))
 
     # ------------------------------------------------------------------ W: walks over the component tree are complete
     import recursion as _recw
     _recw.rule_walkers(F, rep, 'C04.W1', ['validateComponentTree', 'traverseComponentTree', 'buildComponentIdMap', 'findAllVariablesWithEquivalences'], 4, 'validating components, collecting ids and connected variables')
+
+    # ------------------------------------------------------------------ B: belonging is decided by identity
+    rep.rule('C04.B1', 'whether an entity belongs to a container is decided from the entity itself (its owner, or the pointer overload of has*/contains*), not by looking its NAME up in the container: '
+                       '`c->hasVariable(v->name())` is true for a variable of another component that merely has a namesake in c (a reset that refers to a foreign variable is then accepted)')
+    BY_NAME_OK = {('linkComponentVariableUnits', 'hasUnits'): 'the units of that NAME in the model are what a variable is to be linked to'}
+    n_b = 0
+    for g in F.funcs.values():
+        if '/src/' not in g.file:
+            continue
+        for c in g.walk():
+            if not (c.get('k') == 'Call' and c.get('mc') and re.match(r'^(has|contains)[A-Z]', c.get('fn') or '') and len(c.get('c', [])) >= 2):
+                continue
+            a = c['c'][1]
+            while a.get('k') in ('Construct', 'Cast', 'Temp') and len(a.get('c', [])) == 1:
+                a = a['c'][0]
+            if not (a.get('k') == 'Call' and a.get('mc') and a.get('fn') == 'name' and a.get('c')):
+                continue
+            # is there an overload of the same member function that takes the entity itself?
+            ptr_overload = any(h.name == c['fn'] and h.cls == (F.funcs[ck].cls if ck in F.funcs else None) and h.params and 'std::shared_ptr<' in h.params[0]['t']
+                               for ck in F.callee_keys(c) for h in F.funcs.values())
+            if not ptr_overload:
+                continue
+            n_b += 1
+            if (g.name, c['fn']) in BY_NAME_OK:
+                rep.exempt('C04.B1', '%s|%s' % (g.name, render(c)[:50]), BY_NAME_OK[(g.name, c['fn'])])
+                continue
+            rep.fail('C04.B1', '%s|%s' % (g.name, render(c)[:50]), g.where(c), '%s asks `%s`: the name of an entity is looked up although the entity itself is at hand and %s has an overload that takes it' % (g.short, render(c)[:60], c['fn']))
+    rep.ok('C04.B1', 'scan', None, '%d by-name membership tests with the entity at hand in the library (1 confirmed and exempt)' % n_b)
+    if n_b < 1:
+        raise AnalysisBroken('C04.B1: the confirmed by-name membership test (linkComponentVariableUnits) vanished; the matcher no longer works')
 
 
